@@ -4,7 +4,8 @@
 From Coq Require Import List ZArith Arith Lia.
 From Mamba Require Import Invariants.Graph Invariants.DistSpec Invariants.DistRef Invariants.DistRefProofs
   Invariants.DistModel Invariants.CycleRefProofs Invariants.DistRelabel Invariants.GirthModel Invariants.GirthExact
-  Invariants.CycleICModel Invariants.CycleICProofs Invariants.CycleICOrbit.
+  Invariants.CycleICModel Invariants.CycleICProofs Invariants.CycleICOrbit
+  Invariants.BlockModel Invariants.CycleNCModel Invariants.CycleNCProofs.
 Import ListNotations.
 
 (* Girth: the model of the Go function (BFS from every root but the last two, one distances
@@ -95,3 +96,27 @@ Proof.
   destruct Hu as [[[l1 [l2 E]] | [m E]] | [[l1 [l2 E]] | [m E]]];
     repeat (destruct l1 as [|? l1]; try discriminate E); repeat (destruct m as [|? m]; try discriminate E).
 Qed.
+
+(* NumberOfCycles: the model of the Go function — BiconnectedComponents (its model, proved in
+   Props/C10_blocks.v), then per block with at least 3 vertices the induced subgraph, Paton's
+   fundamental cycles found on a working copy from which every examined edge is removed (stack
+   X, parent array T, depths, cycles as sorted lists of edge codes j(j-1)/2+i), Gibbs' algorithm
+   over all XOR combinations (sortints.XOR / ContainsSorted as the merges they are, the removal
+   by swapping with the last entry), and numberFound[len(V)]++ — never panics or runs out of
+   fuel and returns exactly the reference vector: entry L = (number of cycle vertex sequences
+   with L vertices) / 2L, L = 0..n, which by C10_cycle_orbits is the number of cycles with L
+   vertices as subgraphs (C10_cycles_ref in Props/C10.v ties the sequences to the definition). *)
+Theorem C10_cycles_model : forall g, wf g -> number_of_cycles_go g = Done (cycles_ref g).
+Proof. exact number_of_cycles_go_correct. Qed.
+Print Assumptions C10_cycles_model.
+
+(* Non-vacuity: K5 (10 triangles, 15 four-cycles, 12 five-cycles from 6 fundamental cycles and
+   63 combinations), a hexagon with two chords, two blocks joined by a bridge plus an isolated
+   edge, a tree, the empty graph. *)
+Example C10_cycles_model_nonvacuous :
+  number_of_cycles_go (of_edges 5 [(0,1);(0,2);(0,3);(0,4);(1,2);(1,3);(1,4);(2,3);(2,4);(3,4)]) = Done [0; 0; 0; 10; 15; 12] /\
+  number_of_cycles_go ex_ic = Done [0; 0; 0; 1; 2; 3; 1] /\
+  number_of_cycles_go (of_edges 8 [(0,1); (1,2); (2,0); (2,3); (3,4); (4,5); (5,3); (6,7)]) = Done [0; 0; 0; 2; 0; 0; 0; 0; 0] /\
+  number_of_cycles_go (of_edges 4 [(0,1); (1,2); (1,3)]) = Done [0; 0; 0; 0; 0] /\
+  number_of_cycles_go (of_edges 0 []) = Done [0].
+Proof. vm_compute. repeat split. Qed.
